@@ -5,7 +5,8 @@ import Model.Py.Ast
 `renderOp : Ctx → Op → PyAst` mirrors, renderer by renderer, how an operation object is turned
 into the text of an `op.<directive>(…)` call: which arguments are positional, which keyword
 arguments appear under which condition (`if schema:` = truthiness, `is not None`, `is not
-False`), how names are embedded (`%r` = `PyAst.str`, `'%s'` / `'{tname}'` = `PyAst.sq`), the
+False`), how names are embedded (`%r` = `PyAst.str`; every renderer uses `%r` since the F8 fix,
+`PyAst.sq` = the naive `'%s'` embedding is no longer produced), the
 `op.f()` wrapper of `_render_gen_name` for `conv` names, the batch / non-batch templates,
 and the white space (`Layout`).
 
@@ -195,11 +196,6 @@ def optStr : Option Str → PyAst
   | some s => .str s
   | none => pyNone
 
-/-- `"'%s'" % schema if schema is not None else None` -/
-def optSq : Option Str → PyAst
-  | some s => .sq s
-  | none => pyNone
-
 def schemaKw (schema : Option Str) : List Item := optItem "schema" ((truthy schema).map .str)
 
 def alterLayout : Layout := ⟨[], '\n' :: List.replicate 11 ' ', [], false⟩
@@ -284,17 +280,17 @@ def renderOp (c : Ctx) : Op → PyAst
       ([pos (genName c name)] ++ (if c.batch then [] else [pos (.str table)] ++ schemaKw schema) ++
         optItem "type_" ((truthy type_).map .str))
   | .createTableComment table comment existing schema =>
-    -- _render_create_table_comment: '{tname}' and "'%s'" % schema
+    -- _render_create_table_comment: `"%r" % _ident(op.table_name)`, `"%r" % _ident(op.schema) if op.schema is not None else None`
     if c.batch then .call (c.op ++ S "create_table_comment") commentLayout
       [pos (optStr comment), kw "existing_comment" (optStr existing)]
     else .call (c.op ++ S "create_table_comment") commentLayout
-      [pos (.sq table), pos (optStr comment), kw "existing_comment" (optStr existing), kw "schema" (optSq schema)]
+      [pos (.str table), pos (optStr comment), kw "existing_comment" (optStr existing), kw "schema" (optStr schema)]
   | .dropTableComment table existing schema =>
     -- _render_drop_table_comment
     if c.batch then .call (c.op ++ S "drop_table_comment") commentLayout
       [kw "existing_comment" (optStr existing)]
     else .call (c.op ++ S "drop_table_comment") commentLayout
-      [pos (.sq table), kw "existing_comment" (optStr existing), kw "schema" (optSq schema)]
+      [pos (.str table), kw "existing_comment" (optStr existing), kw "schema" (optStr schema)]
 
 /-! ## containers: `_render_modify_table` -/
 
